@@ -79,6 +79,7 @@ def invalid_grid(ctx):
     pbad = [("forest", {"S": 0}), ("forest", {"p": -0.1}), ("forest", {"p": 1.5}),
             ("de_moor", {"max_demand": 0}), ("de_moor", {"demand_gamma_mean": 0.0}), ("de_moor", {"demand_gamma_cov": -1.0}), ("de_moor", {"max_useful_life": 0}),
             ("de_moor", {"lead_time": 0}), ("de_moor", {"max_order_quantity": 0}), ("de_moor", {"issue_policy": "random"}),
+            ("de_moor", {"issue_policy": "FIFO"}), ("de_moor", {"issue_policy": "Lifo"}), ("de_moor", {"issue_policy": " fifo"}), ("de_moor", {"issue_policy": ""}),
             ("hendrix", {"max_useful_life": 0}), ("hendrix", {"demand_poisson_mean_a": 0.0}), ("hendrix", {"substitution_probability": 1.5}), ("hendrix", {"max_order_quantity_b": 0}),
             ("mirjalili", {"max_demand": 0}), ("mirjalili", {"weekday_demand_negbin_n": [1.0] * 6}), ("mirjalili", {"weekday_demand_negbin_delta": [1.0, 1.0, 1.0, 0.0, 1.0, 1.0, 1.0]}),
             ("mirjalili", {"max_useful_life": 0}), ("mirjalili", {"useful_life_at_arrival_distribution_c_0": [1.0, 2.0, 3.0]}), ("mirjalili", {"max_order_quantity": 0})]
@@ -106,7 +107,7 @@ def run(ctx, build):
     bad, pbad = invalid_grid(ctx)
     if quick:
         bad = ctx.rng.sample(bad, 24)
-        pbad = ctx.rng.sample(pbad, 10)
+        pbad = ctx.rng.sample(pbad, 10) + [x for x in pbad if x[0] == "de_moor" and "issue_policy" in x[1] and x[1]["issue_policy"] in ("FIFO", "Lifo")]
     for j, (solver, cfg, m) in enumerate(bad):
         route = ["kwargs", "config_only"][j % 2]
         jobs.append(construct_job(ctx, solver, cfg, route, "problem_first", "forest", solve=0, tag=f"b{j}"))
